@@ -671,9 +671,35 @@ def _sibling_default_slug_func(sib: Module) -> FunctionInfo:
 # extractor 3: title construction
 
 
-def title_fingerprint(fi: FunctionInfo) -> dict | None:
-    joins = []
+def _types_of(c: ast.Compare, pol: bool, var: str, fi: FunctionInfo):
+    """(frozenset of token types, filter attribute, literal node) when (c, pol) means `var.<attr> in {literals}`."""
+    if not (isinstance(c, ast.Compare) and len(c.ops) == 1 and isinstance(c.left, ast.Attribute) and isinstance(c.left.value, ast.Name) and c.left.value.id == var):
+        return None
+    rhs = c.comparators[0]
+    lit = rhs
+    if isinstance(rhs, ast.Name):  # hoisted constant (module level or local, assigned once)
+        ds = _assigns_to(fi, rhs.id)
+        if len(ds) == 1 and isinstance(ds[0], ast.Assign):
+            lit = ds[0].value
+        elif not ds and rhs.id in fi.module.const_nodes:
+            lit = fi.module.const_nodes[rhs.id]
+    op = c.ops[0]
+    if isinstance(lit, ast.Call) and dotted(lit.func) in ("frozenset", "set", "tuple", "list") and len(lit.args) == 1:
+        lit = lit.args[0]
+    if isinstance(lit, (ast.List, ast.Tuple, ast.Set)) and all(isinstance(e, ast.Constant) and isinstance(e.value, str) for e in lit.elts):
+        if (isinstance(op, ast.In) and pol) or (isinstance(op, ast.NotIn) and not pol):
+            return frozenset(e.value for e in lit.elts), c.left.attr, lit
+    if isinstance(lit, ast.Constant) and isinstance(lit.value, str):
+        if (isinstance(op, ast.Eq) and pol) or (isinstance(op, ast.NotEq) and not pol):
+            return frozenset([lit.value]), c.left.attr, lit
+    return None
+
+
+def _gathers(fi: FunctionInfo) -> list[dict]:
+    """Every `SEP.join(<x.attr for x in ITER if tests>)`, written as a comprehension or as an explicit loop."""
+    out = []
     for n in walk_local(fi.node):
+        # comprehension form
         if (
             isinstance(n, ast.Call)
             and isinstance(n.func, ast.Attribute)
@@ -682,67 +708,156 @@ def title_fingerprint(fi: FunctionInfo) -> dict | None:
             and isinstance(n.func.value.value, str)
             and len(n.args) == 1
             and isinstance(n.args[0], (ast.GeneratorExp, ast.ListComp))
-            and any(isinstance(x, ast.Attribute) and x.attr == "type" for g in n.args[0].generators for i in g.ifs for x in ast.walk(i))
         ):
-            joins.append(n)
-    if not joins:
-        return None
-    if len(joins) > 1:
-        raise Unsupported(f"{fi.fq}: more than one title join")
-    j = joins[0]
-    comp = j.args[0]
-    if len(comp.generators) != 1 or comp.generators[0].is_async or not isinstance(comp.generators[0].target, ast.Name):
-        raise Unsupported(f"{fi.fq}: title comprehension not understood")
-    g = comp.generators[0]
-    var = g.target.id
-    if not (isinstance(comp.elt, ast.Attribute) and isinstance(comp.elt.value, ast.Name) and comp.elt.value.id == var):
-        raise Unsupported(f"{fi.fq}: title element is not an attribute of the child token")
-    if len(g.ifs) != 1 or not isinstance(g.ifs[0], ast.Compare) or len(g.ifs[0].ops) != 1:
-        raise Unsupported(f"{fi.fq}: title filter not understood")
-    c = g.ifs[0]
-    if not (isinstance(c.left, ast.Attribute) and isinstance(c.left.value, ast.Name) and c.left.value.id == var):
-        raise Unsupported(f"{fi.fq}: title filter does not test the child token")
-    rhs = c.comparators[0]
-    if isinstance(c.ops[0], ast.In) and isinstance(rhs, (ast.List, ast.Tuple, ast.Set)) and all(isinstance(e, ast.Constant) and isinstance(e.value, str) for e in rhs.elts):
-        types = frozenset(e.value for e in rhs.elts)
-    elif isinstance(c.ops[0], ast.Eq) and isinstance(rhs, ast.Constant) and isinstance(rhs.value, str):
-        types = frozenset([rhs.value])
-    else:
-        raise Unsupported(f"{fi.fq}: title filter is not `child.type in [literals]`")
-    it = g.iter
-    if isinstance(it, ast.BoolOp) and isinstance(it.op, ast.Or) and len(it.values) == 2 and isinstance(it.values[1], (ast.List, ast.Tuple)) and not it.values[1].elts:
-        it = it.values[0]
-    if not (isinstance(it, ast.Attribute) and isinstance(it.value, ast.Name)):
-        raise Unsupported(f"{fi.fq}: title iterates over something other than <token>.<attr>")
-    coll_attr, tok = it.attr, it.value.id
+            comp = n.args[0]
+            if len(comp.generators) == 1 and not comp.generators[0].is_async and isinstance(comp.generators[0].target, ast.Name):
+                g = comp.generators[0]
+                tj = parent(n)
+                tname = tj.targets[0].id if isinstance(tj, ast.Assign) and tj.value is n and len(tj.targets) == 1 and isinstance(tj.targets[0], ast.Name) else None
+                out.append({"sep": n.func.value.value, "var": g.target.id, "elt": comp.elt, "tests": [f_ for i in g.ifs for f_ in facts(i, True)], "iter": g.iter, "node": n, "title_name": tname, "title_expr": n})
+        # loop form: for x in ITER: [if ...: continue] / [if ...:] acc.append(x.attr) | acc += x.attr
+        if isinstance(n, ast.For) and isinstance(n.target, ast.Name) and not n.orelse:
+            accs: list[tuple[str, str, ast.expr, list]] = []
+            clean = True
+
+            def scan(stmts, held):
+                nonlocal clean
+                held = list(held)
+                for st in stmts:
+                    if isinstance(st, ast.If) and not st.orelse and len(st.body) == 1 and isinstance(st.body[0], ast.Continue):
+                        held += facts(st.test, False)
+                    elif isinstance(st, ast.If) and not st.orelse:
+                        scan(st.body, held + facts(st.test, True))
+                    elif isinstance(st, ast.Expr) and isinstance(st.value, ast.Call) and isinstance(st.value.func, ast.Attribute) and st.value.func.attr == "append" and isinstance(st.value.func.value, ast.Name) and len(st.value.args) == 1:
+                        accs.append(("append", st.value.func.value.id, st.value.args[0], held))
+                    elif isinstance(st, ast.AugAssign) and isinstance(st.op, ast.Add) and isinstance(st.target, ast.Name):
+                        accs.append(("concat", st.target.id, st.value, held))
+                    else:
+                        clean = False
+
+            scan(n.body, [])
+            if not clean or len(accs) != 1:
+                continue
+            kind, acc, elt, held = accs[0]
+            init = [d for d in _assigns_to(fi, acc) if d.lineno < n.lineno]
+            if kind == "append":
+                if not (len(_assigns_to(fi, acc)) == 1 and init and isinstance(init[0], ast.Assign) and isinstance(init[0].value, ast.List) and not init[0].value.elts):
+                    continue
+                joins = [
+                    c
+                    for c in walk_local(fi.node)
+                    if isinstance(c, ast.Call) and isinstance(c.func, ast.Attribute) and c.func.attr == "join" and isinstance(c.func.value, ast.Constant) and isinstance(c.func.value.value, str) and len(c.args) == 1 and isinstance(c.args[0], ast.Name) and c.args[0].id == acc and c.lineno > n.lineno
+                ]
+                others = [x for x in walk_local(fi.node) if isinstance(x, ast.Name) and x.id == acc and isinstance(x.ctx, ast.Load)]
+                if len(joins) != 1 or len(others) != 2:  # the append receiver and the join argument
+                    continue
+                j = joins[0]
+                tj = parent(j)
+                tname = tj.targets[0].id if isinstance(tj, ast.Assign) and tj.value is j and len(tj.targets) == 1 and isinstance(tj.targets[0], ast.Name) else None
+                out.append({"sep": j.func.value.value, "var": n.target.id, "elt": elt, "tests": held, "iter": n.iter, "node": n, "title_name": tname, "title_expr": j})
+            else:
+                if not (init and isinstance(init[-1], ast.Assign) and isinstance(init[-1].value, ast.Constant) and init[-1].value.value == "" and len(_assigns_to(fi, acc)) == 2):
+                    continue
+                out.append({"sep": "", "var": n.target.id, "elt": elt, "tests": held, "iter": n.iter, "node": n, "title_name": acc, "title_expr": None})
+    return out
+
+
+def _token_offset(fi: FunctionInfo, tok: str) -> int | None:
+    """Distance of the token named ``tok`` from the heading's opening token."""
     tdefs = _assigns_to(fi, tok)
     if len(tdefs) != 1 or not isinstance(tdefs[0], ast.Assign) or not isinstance(tdefs[0].value, ast.Subscript):
-        raise Unsupported(f"{fi.fq}: `{tok}` is not selected by one subscript")
+        return None
     sub = tdefs[0].value
     sl = sub.slice
-    offset = None
     if isinstance(sl, ast.Constant) and isinstance(sl.value, int):
         src = sub.value
         if isinstance(src, ast.Name):
             sd = _assigns_to(fi, src.id)
             src = sd[0].value if len(sd) == 1 and isinstance(sd[0], ast.Assign) else None
         if isinstance(src, ast.Call) and isinstance(src.func, ast.Attribute) and src.func.attr == "to_tokens" and not src.args:
-            offset = sl.value  # index 0 of to_tokens() is the heading's own opening token
+            return sl.value  # index 0 of to_tokens() is the heading's own opening token
     elif isinstance(sl, ast.BinOp) and isinstance(sl.op, ast.Add) and isinstance(sl.left, ast.Name) and isinstance(sl.right, ast.Constant) and isinstance(sl.right.value, int):
         loop = enclosing_loop(tdefs[0], fi)
         if isinstance(loop, ast.For) and sl.left.id in _names(loop.target) and isinstance(loop.iter, ast.Call) and dotted(loop.iter.func) == "enumerate":
-            offset = sl.right.value
+            return sl.right.value
+    return None
+
+
+def title_fingerprint(fi: FunctionInfo, corpus: Corpus | None = None) -> dict | None:
+    """How the heading title is assembled in ``fi`` (or in a package helper it calls, when ``corpus`` is given)."""
+    owner = fi
+    call_in_fi = None
+    cands = []
+    for g in _gathers(fi):
+        ts = [x for x in (_types_of(t, pol, g["var"], fi) for t, pol in g["tests"]) if x is not None]
+        if ts:
+            cands.append((g, ts))
+    if not cands and corpus is not None:
+        cg = get_callgraph(corpus)
+        for call, targets in cg.callees(fi):
+            for h in cg.flat_targets(targets):
+                if h.is_lambda or h.fq == fi.fq:
+                    continue
+                for g in _gathers(h):
+                    ts = [x for x in (_types_of(t, pol, g["var"], h) for t, pol in g["tests"]) if x is not None]
+                    if ts:
+                        cands.append((g, ts))
+                        owner, call_in_fi = h, call
+    if not cands:
+        return None
+    if len(cands) > 1:
+        raise Unsupported(f"{fi.fq}: more than one title join")
+    g, ts = cands[0]
+    var = g["var"]
+    if len(ts) != 1 or len(g["tests"]) != 1:
+        raise Unsupported(f"{owner.fq}: title filter is not a single `child.type in [literals]` test")
+    types, fattr, lit = ts[0]
+    elt = g["elt"]
+    if not (isinstance(elt, ast.Attribute) and isinstance(elt.value, ast.Name) and elt.value.id == var):
+        raise Unsupported(f"{owner.fq}: title element is not an attribute of the child token")
+    it = g["iter"]
+    if isinstance(it, ast.Name):  # children = tok.children or []
+        ds = _assigns_to(owner, it.id)
+        if len(ds) == 1 and isinstance(ds[0], ast.Assign):
+            it = ds[0].value
+    if isinstance(it, ast.BoolOp) and isinstance(it.op, ast.Or) and len(it.values) == 2 and isinstance(it.values[1], (ast.List, ast.Tuple)) and not it.values[1].elts:
+        it = it.values[0]
+    if not (isinstance(it, ast.Attribute) and isinstance(it.value, ast.Name)):
+        raise Unsupported(f"{owner.fq}: title iterates over something other than <token>.<attr>")
+    coll_attr, tok = it.attr, it.value.id
+    title_name, title_expr = g["title_name"], g["title_expr"]
+    if owner is fi:
+        offset = _token_offset(fi, tok)
+    else:
+        # the helper receives the inline token as a parameter and returns the title
+        rets = [r for r in walk_local(owner.node) if isinstance(r, ast.Return)]
+        returns_title = bool(rets) and all(
+            r.value is title_expr or (isinstance(r.value, ast.Name) and title_name is not None and r.value.id == title_name) for r in rets
+        )
+        if tok not in owner.params or not returns_title:
+            raise Unsupported(f"{owner.fq}: helper that builds the title not understood")
+        shift = 1 if (owner.cls is not None and owner.params and owner.params[0] in ("self", "cls")) else 0
+        arg = arg_or_kw(call_in_fi, owner.params.index(tok) - shift, tok)
+        if not isinstance(arg, ast.Name):
+            raise Unsupported(f"{fi.module.site(call_in_fi)}: token handed to {owner.qualname} not understood")
+        offset = _token_offset(fi, arg.id)
+        tj = parent(call_in_fi)
+        title_name = tj.targets[0].id if isinstance(tj, ast.Assign) and tj.value is call_in_fi and len(tj.targets) == 1 and isinstance(tj.targets[0], ast.Name) else None
+        title_expr = call_in_fi
     if offset is None:
-        raise Unsupported(f"{fi.fq}: position of the inline token relative to the heading token not understood: {short(sub, 40)}")
+        raise Unsupported(f"{fi.fq}: position of the inline token `{tok}` relative to the heading token not understood")
     return {
-        "sep": j.func.value.value,
-        "elt": comp.elt.attr,
-        "filter": c.left.attr,
+        "sep": g["sep"],
+        "elt": elt.attr,
+        "filter": fattr,
         "types": types,
         "collection": coll_attr,
         "offset": offset,
-        "types_node": rhs,
-        "join": j,
+        "types_node": lit,
+        "join": g["node"],
+        "owner": owner,
+        "title_name": title_name,
+        "title_expr": title_expr,
     }
 
 
@@ -814,9 +929,10 @@ def r2_sibling_agreement(corpus: Corpus, rep: Report, tier: str):
             rep.ok("C10.R2", f"{dfi.fq}|title pipeline|{_op_text(o)}", dfi.module.site(o[2]), "also applied by the plugin")
     # (c) title construction
     cus = corpus.func(CUS)
-    fp = title_fingerprint(cus)
+    fp = title_fingerprint(cus, corpus)
     if fp is None:
         raise Unsupported(f"{cus.fq}: title join not found")
+    tmod = fp["owner"].module
     sfps = [(f, title_fingerprint(f)) for f in sib.functions.values() if not f.is_lambda]
     sfps = [(f, x) for f, x in sfps if x is not None]
     if len(sfps) != 1:
@@ -825,7 +941,7 @@ def r2_sibling_agreement(corpus: Corpus, rep: Report, tier: str):
     a, b = _fp_val(fp), _fp_val(sfp)
     for field, label in (("types", "token types"), ("elt", "joined attribute"), ("sep", "join separator"), ("collection", "token collection"), ("offset", "inline-token offset"), ("filter", "filter attribute")):
         k = f"{cus.fq}|title {label}"
-        tsite = cus.module.site(fp["types_node"] if field == "types" else fp["join"])
+        tsite = tmod.site(fp["types_node"] if field == "types" else fp["join"])
         if a[field] == b[field]:
             rep.ok("C10.R2", k, tsite, f"{sorted(a[field]) if field == 'types' else a[field]!r}")
         else:
@@ -834,11 +950,10 @@ def r2_sibling_agreement(corpus: Corpus, rep: Report, tier: str):
             rep.violation("C10.R2", k, tsite, f"title is built with {label} {av!r}; the plugin ({sf.qualname}) uses {bv!r}")
     # the slug function is applied to that title
     sel = _sel
-    tj = parent(fp["join"])
-    tname = tj.targets[0].id if isinstance(tj, ast.Assign) and len(tj.targets) == 1 and isinstance(tj.targets[0], ast.Name) else None
+    tname = fp["title_name"]
     k = f"{cus.fq}|slug function applied to the joined title"
     for call in sel["calls"]:
-        ok = len(call.args) == 1 and not call.keywords and ((tname and isinstance(call.args[0], ast.Name) and call.args[0].id == tname) or call.args[0] is fp["join"])
+        ok = len(call.args) == 1 and not call.keywords and ((tname and isinstance(call.args[0], ast.Name) and call.args[0].id == tname) or (fp["title_expr"] is not None and call.args[0] is fp["title_expr"]))
         if ok:
             rep.ok("C10.R2", k, cus.module.site(call))
         else:
@@ -1460,32 +1575,58 @@ def _reader_exprs(f: FunctionInfo, kind: str, name: str) -> list[ast.AST]:
     return out
 
 
-def _id_sink_names(f: FunctionInfo) -> set[str]:
+def _local_sink_names(f: FunctionInfo, kind: str) -> set[str]:
     out = set()
     for n in f.local_nodes():
-        if isinstance(n, ast.Assign) and isinstance(n.value, ast.Name):
-            for t in n.targets:
-                if isinstance(t, ast.Subscript) and isinstance(t.slice, ast.Constant) and t.slice.value in ("refid", "ids", "reftargetid"):
-                    out.add(n.value.id)
-        if isinstance(n, ast.Call) and (dotted(n.func) or "").split(".")[-1] == "make_refnode":
-            a = arg_or_kw(n, 3, "targetid")
-            if isinstance(a, ast.Name):
-                out.add(a.id)
-        if isinstance(n, ast.Call):
-            for kw in n.keywords:
-                if kw.arg in ("refid", "targetid", "reftargetid") and isinstance(kw.value, ast.Name):
-                    out.add(kw.value.id)
-    return out
-
-
-def _text_sink_names(f: FunctionInfo) -> set[str]:
-    out = set()
-    for n in f.local_nodes():
-        if isinstance(n, ast.Call) and (dotted(n.func) or "").split(".")[-1] in ("inline", "Text", "literal", "emphasis", "strong"):
-            for a in n.args:
+        if kind == "id":
+            if isinstance(n, ast.Assign) and isinstance(n.value, ast.Name):
+                for t in n.targets:
+                    if isinstance(t, ast.Subscript) and isinstance(t.slice, ast.Constant) and t.slice.value in ("refid", "ids", "reftargetid"):
+                        out.add(n.value.id)
+            if isinstance(n, ast.Call) and (dotted(n.func) or "").split(".")[-1] == "make_refnode":
+                a = arg_or_kw(n, 3, "targetid")
                 if isinstance(a, ast.Name):
                     out.add(a.id)
+            if isinstance(n, ast.Call):
+                for kw in n.keywords:
+                    if kw.arg in ("refid", "targetid", "reftargetid") and isinstance(kw.value, ast.Name):
+                        out.add(kw.value.id)
+        else:
+            if isinstance(n, ast.Call) and (dotted(n.func) or "").split(".")[-1] in ("inline", "Text", "literal", "emphasis", "strong"):
+                for a in n.args:
+                    if isinstance(a, ast.Name):
+                        out.add(a.id)
     return out
+
+
+def _sink_names(corpus: Corpus, f: FunctionInfo, kind: str, depth: int = 2, _seen: frozenset = frozenset()) -> set[str]:
+    """Local names of ``f`` that reach an id / text sink, also through package helpers they are passed to."""
+    out = _local_sink_names(f, kind)
+    if depth > 0 and not f.is_lambda:
+        g = get_callgraph(corpus)
+        for call, targets in g.callees(f):
+            for h in g.flat_targets(targets):
+                if h.is_lambda or h.fq == f.fq or h.fq in _seen:
+                    continue
+                hs = _alias_closure(_sink_names(corpus, h, kind, depth - 1, _seen | {f.fq}), h)
+                if not hs:
+                    continue
+                shift = 1 if (h.cls is not None and h.params and h.params[0] in ("self", "cls") and isinstance(call.func, ast.Attribute)) else 0
+                for i, a in enumerate(call.args):
+                    if isinstance(a, ast.Name) and i + shift < len(h.params) and h.params[i + shift] in hs:
+                        out.add(a.id)
+                for kw in call.keywords:
+                    if kw.arg in hs and isinstance(kw.value, ast.Name):
+                        out.add(kw.value.id)
+    return out
+
+
+def _id_sink_names(f: FunctionInfo, corpus: Corpus | None = None) -> set[str]:
+    return _sink_names(corpus, f, "id") if corpus is not None else _local_sink_names(f, "id")
+
+
+def _text_sink_names(f: FunctionInfo, corpus: Corpus | None = None) -> set[str]:
+    return _sink_names(corpus, f, "text") if corpus is not None else _local_sink_names(f, "text")
 
 
 @rule("C10.R5")
@@ -1508,7 +1649,7 @@ def r5_record_layout(corpus: Corpus, rep: Report, tier: str):
                 found += 1
                 n_readers += 1
                 rep.saw_function(f.fq)
-                _check_reader(f, r, name, kinds, p_id, p_title, rep)
+                _check_reader(f, r, name, kinds, p_id, p_title, rep, corpus)
         if not found:
             rep.error("C10.R5", f"registry published as {kind} `{name}` ({esite}) has no reader in the package")
     rep.expect_min("C10.R5", 2, "readers of document.myst_slugs and env.metadata[...]['myst_slugs']")
@@ -1547,12 +1688,12 @@ def _direct_sink(node: ast.AST) -> str | None:
     return None
 
 
-def _check_reader(f: FunctionInfo, r: ast.AST, name: str, kinds: list[str], p_id: int, p_title: int, rep: Report) -> None:
+def _check_reader(f: FunctionInfo, r: ast.AST, name: str, kinds: list[str], p_id: int, p_title: int, rep: Report, corpus: Corpus | None = None) -> None:
     site = f.module.site(r)
     var = _reader_var(r)
     if var is None:
         raise Unsupported(f"{site}: reader of `{name}` is not bound to a local name")
-    idn, txn = _alias_closure(_id_sink_names(f), f), _alias_closure(_text_sink_names(f), f)
+    idn, txn = _alias_closure(_id_sink_names(f, corpus), f), _alias_closure(_text_sink_names(f, corpus), f)
     used = {n.id for n in f.local_nodes() if isinstance(n, ast.Name) and isinstance(n.ctx, ast.Load)}
     # groups: (site node, label, {position: (use kinds, text)}, full arity or None)
     groups: list[tuple[ast.AST, str, dict[int, tuple[set[str], str]], int | None]] = []
@@ -1880,11 +2021,12 @@ def mutants(corpus: Corpus):
     if rpl:
         c = rpl[0][2]
         out.append(Mutant("c10-pipeline-replace-dropped", "C10.R2", dfi.module.rel, splice(dsrc, c, segment(dsrc, c.func.value)), expect="missing replace"))
-    fp = title_fingerprint(cus)
+    fp = title_fingerprint(cus, corpus)
     if fp is not None:
         tn = fp["types_node"]
-        out.append(Mutant("c10-title-includes-html-inline", "C10.R2", base.rel, splice(src, tn, '["text", "code_inline", "html_inline"]'), expect="token types"))
-        out.append(Mutant("c10-title-drops-code-inline", "C10.R2", base.rel, splice(src, tn, '["text"]'), expect="token types"))
+        tm_ = fp["owner"].module
+        out.append(Mutant("c10-title-includes-html-inline", "C10.R2", tm_.rel, splice(tm_.src, tn, '["text", "code_inline", "html_inline"]'), expect="token types"))
+        out.append(Mutant("c10-title-drops-code-inline", "C10.R2", tm_.rel, splice(tm_.src, tn, '["text"]'), expect="token types"))
     cli = corpus.mod("cli")
     for q, f in cli.functions.items():
         if q.startswith("print_anchors") and not f.is_lambda:
